@@ -83,7 +83,7 @@ def prep_table(rep, rule, k, with_threshold, override):
 def run(rep, tier):
     idx = common.ctx()
     rep.rule("T10-T12 save preparation", "abstract interpretation of _tgToDictionary + _prepTgForSaving (with _fillInBlanks, _removeUltrashortIntervals, _sortEntries inlined) on a generic textgrid against the spec: verbatim when blank filling is off; otherwise blanks exactly in the unlabelled stretches of the requested span, ParsingError when an entry falls outside it, slivers shorter than the threshold absorbed into the neighbour, nothing absorbed when the threshold is None; the override becomes the file's span; point tiers untouched; the textgrid itself untouched; the written tier partitions [xmin, xmax]")
-    rep.rule("G-guards", "structural: getTextgridAsStr prepares once before the format dispatch; save() validates before it serialises")
+    rep.rule("G-guards", "getTextgridAsStr interpreted per format with its callees abstracted to recorders: the dictionary is prepared exactly once, with the caller's blank-filling / span-override / threshold options passed through unchanged, before anything is serialised")
     rep.not_decided.append("'no written interval is shorter than the threshold' after chains of slivers whose sum is still below the threshold (depends on sums of lengths)")
     rep.not_decided.append("the second (boundary-stitching) loop of _removeUltrashortIntervals is a no-op on a partition in exact arithmetic; its float behaviour is not decided")
     ks = [0, 1, 2] if tier == "quick" else [0, 1, 2, 3]
@@ -95,11 +95,9 @@ def run(rep, tier):
                 if k >= 3 and thr and ov != "none":
                     continue  # 3 intervals x threshold x overrides: the refinement tree gets too large; covered for k <= 2
                 prep_table(rep, "T10-T12-prep", k, thr, ov)
-    # structural guards
-    f = idx.get("utilities.textgrid_io:getTextgridAsStr")
-    calls = [n for n in ast.walk(f.node) if isinstance(n, ast.Call) and norm(n.func).endswith("_prepTgForSaving")]
-    rep.check(len(calls) == 1 and any(isinstance(s, ast.Assign) and s.value is calls[0] for s in f.node.body), "G-guards", f.short, "_prepTgForSaving(...)",
-              ok="called exactly once, at the top level of the function, before the format dispatch", bad="the dictionary is not prepared exactly once before the format dispatch")
+    # getTextgridAsStr: prepared exactly once with the caller's options, every format serialises that object
+    from .c02 import rule_one_dict
+    rule_one_dict(rep, rule="G-guards")
     # 'if an entry would fall outside the requested span the save raises instead of writing an inconsistent file'
     from .common import rule_save_order
     rep.rule("B2-save-order", "in Textgrid.save the text is computed (and can raise) before the destination is opened for writing (shared with C13)")
